@@ -1,11 +1,14 @@
 CONSTANTS
   Streams = {0, 1}
   Paired = TRUE
-  MaxOps = 5
-  MaxWire = 3
+  MaxOps = 4
+  MaxWire = 2
   BarrierBug = FALSE
   ResetLoose = FALSE
   LoseFlagInClosing = FALSE
+  LocalOps = {"read", "write", "close", "close_read", "drop"}
+  EnvOps = {"block", "unblock"}
+  Frames = {"data", "fin", "stop", "reset"}
 INIT GInit
 NEXT GNext
 VIEW GView
